@@ -75,6 +75,12 @@ func parseHelp(out string) (p helpParsed, err error) {
 			return p, fmt.Errorf("text after the footer: %q", l)
 		}
 		indent := len(l) - len(strings.TrimLeft(l, " \t"))
+		if indent == 0 && cur == "Commands:" && len(p.sections[cur]) > 0 {
+			// the description of a sub-command is written as it is: its further lines start in the first column
+			rs := p.sections[cur]
+			rs[len(rs)-1].Text = normWS(rs[len(rs)-1].Text + " " + t)
+			continue
+		}
 		if indent == 0 {
 			return p, fmt.Errorf("unexpected line in section %s: %q", cur, l)
 		}
@@ -191,6 +197,11 @@ func genHelpNode(r *rand.Rand, name string, depth int, parent *hNode, version bo
 			n.aliases = append(n.aliases, fmt.Sprintf("%s_%d", name, j))
 		}
 		n.desc = strings.Replace(hDescs[r.Intn(7)], "\n", " ", -1)
+		if r.Intn(3) == 0 {
+			// also multi-line: every line shows up in the parent's Commands section (further lines are written as they
+			// are, from the first column; one that starts with blanks would read like a row of its own, so none does)
+			n.desc = []string{"first line\nsecond line", "a\n\nb", "one\ntwo\nthree (100%)", "ends with colon:"}[r.Intn(4)]
+		}
 		n.hidden = r.Intn(4) == 0
 	}
 	if r.Intn(2) == 0 {
@@ -230,7 +241,7 @@ func genHelpNode(r *rand.Rand, name string, depth int, parent *hNode, version bo
 		switch typ {
 		case 7, 8:
 			// user-supplied value type: the default shown is its String(), unless it says IsDefault()
-			txt := []string{"", "cv-1", "two words"}[r.Intn(3)]
+			txt := []string{"", "cv-1", "two words", "[]", "false", "0"}[r.Intn(6)] // shown as it is whenever the type does not say IsDefault
 			isDef := typ == 8 && r.Intn(2) == 0
 			var val flag.Value = &c17Plain{txt}
 			if typ == 8 {
